@@ -64,6 +64,9 @@ def main():
             print('%s on %s: rc=%d %.0fs %s' % (c, a.name, rc, time.time() - t0, (lines[0] if lines else '')[:200]))
     finally:
         sh(['git', '-C', REPO, 'checkout', '--', '.'])
+        # the checks regenerated lean/XfabVerif/Gen from the changed tree: put the model of the reviewed tree back
+        sh(['/venv/bin/python', '-c', 'import sys; sys.path.insert(0, %r); import check; [check.restore_generated(g) for g in check.GEN_FILES]'
+            % os.path.join(VERIF, 'harness')], env=dict(os.environ, PYTHONPATH=REPO, PYTHONWARNINGS='ignore'))
         rc, out = sh(['git', '-C', REPO, 'status', '--porcelain'])
         if out.strip():
             print('WARNING: /repo not clean after undo:\n' + out)
